@@ -14,7 +14,9 @@ import "time"
 //   metrics  1: metrics enabled
 //   pre      number of resident keys in the (quiescent) pre-state
 //   collide  1: keys may share the primary hash (conflict hashes differ and are non-zero)
-//   ttl      concrete TTL in nanoseconds used by the SetWithTTL menu entry
+//   ttl      concrete TTL in nanoseconds used by the SetWithTTL menu entries
+//   freecost 1: items written with cost 0 cost nothing (otherwise the Cost callback prices them at 1)
+//   ticks    number of expiry sweeps that may fire during the burst (0: ticker silent)
 func vfH_Burst() {
 	ops := vfParam("ops", 2)
 	menu := vfParam("menu", 0x3f)
@@ -26,7 +28,12 @@ func vfH_Burst() {
 	metrics := vfParam("metrics", 0) == 1
 	ttl := time.Duration(vfParam("ttl", 0))
 	nk := 3
-	c, mon := vfNewCache(vfCfg{MaxCost: maxCost, SetBuf: setbuf, IgnoreInternalCost: true, Metrics: metrics})
+	if vfParam("ticks", 0) > 0 && vfNative() {
+		// native replay only: the time scale of the repository's own tests (1 s buckets and ticker),
+		// so that "expired and swept" happens within seconds of real time
+		bucketDurationSecs = 1
+	}
+	c, mon := vfNewCache(vfCfg{MaxCost: maxCost, SetBuf: setbuf, IgnoreInternalCost: true, Metrics: metrics, BufferItems: int64(vfParam("bufitems", 64)), FreeCost: vfParam("freecost", 0) == 1})
 	mon.vfKeys(nk, !collide)
 	if collide {
 		for i := 0; i < nk; i++ {
@@ -53,19 +60,25 @@ func vfH_Burst() {
 	vfSet("preempt", 0)
 	vfSet("dpor", 0)
 	for i := 0; i < pre; i++ {
-		mon.set(c, uint64(i), 1, 0)
+		mon.set(c, uint64(i), 1, time.Duration(vfParam("prettl", 0)))
 	}
 	c.Wait()
 	vfSet("dpor", 1)
 	vfSet("preempt", vfParam("preempt", 100))
+	if t := vfParam("ticks", 0); t > 0 {
+		// the expiry sweep may run (up to t times) at any point of the burst; the clock may advance
+		// far enough for the item's bucket to be swept
+		vfSet("clock-horizon", vfParam("horizon", 11))
+		vfSet("ticks", t)
+	}
 	gets := 0
 	raised := false
 	vfBegin()
 	doOps := func(ops int, tag int) {
 		for i := 0; i < ops; i++ {
-			var allowed [12]int
+			var allowed [13]int
 			n := 0
-			for b := 0; b < 12; b++ {
+			for b := 0; b < 13; b++ {
 				if menu&(1<<b) != 0 {
 					allowed[n] = b
 					n++
@@ -99,6 +112,10 @@ func vfH_Burst() {
 				mon.inClear = true
 				c.Clear()
 				mon.inClear = false
+			case 11:
+				mon.set(c, 2, 2, 0) // a heavier new key: needs more than one victim
+			case 12:
+				mon.set(c, 0, 0, ttl) // a TTL item that costs nothing
 			}
 		}
 	}
@@ -114,6 +131,9 @@ func vfH_Burst() {
 	if ops2 > 0 {
 		<-done
 	}
+	if vfParam("ticks", 0) > 0 && vfNative() {
+		time.Sleep(ttl + 3500*time.Millisecond) // native replay only: let the item expire and a sweep pass
+	}
 	switch final {
 	case 0:
 		c.Wait()
@@ -124,6 +144,17 @@ func vfH_Burst() {
 			}
 		}
 		vfQuiescent(c, mon, nk, maxCost, raised, gets, metrics)
+		if vfParam("drain", 0) == 1 {
+			// delete every key: afterwards nothing is charged and nothing is enumerated
+			for k := 0; k < nk; k++ {
+				c.Del(uint64(k))
+			}
+			c.Wait()
+			vfAssert(c.RemainingCost() == c.MaxCost(), "C13.all-deleted-means-full-capacity")
+			seen := 0
+			c.IterValues(func(v vfVal) bool { seen++; return false })
+			vfAssert(seen == 0, "C13.all-deleted-nothing-enumerated")
+		}
 	case 1:
 		mon.inClear = true
 		c.Clear()
@@ -169,7 +200,7 @@ func vfStoreHas(c *Cache[uint64, vfVal], h uint64) (storeItem[vfVal], bool) {
 
 // vfQuiescent: buffered writes have drained.
 func vfQuiescent(c *Cache[uint64, vfVal], mon *vfMon, nk int, maxCost int64, raised bool, gets int, metrics bool) {
-	var residents int
+	var residents, stored int
 	var sum int64
 	vfGhost(func() {
 		// C13 speaks about key sets without primary-hash collisions
@@ -187,6 +218,9 @@ func vfQuiescent(c *Cache[uint64, vfVal], mon *vfMon, nk int, maxCost int64, rai
 				dup = vfOr(dup, mon.hash[j] == mon.hash[i])
 			}
 			vfAssert(vfImplies(!collision, inStore == inPolicy), "C13.store-and-accounting-agree")
+			if inStore && !dup {
+				stored++ // what a client can observe as resident (C17 counts these)
+			}
 			if inPolicy && !dup {
 				residents++
 				sum += c.cachePolicy.Cost(mon.hash[i])
@@ -198,7 +232,7 @@ func vfQuiescent(c *Cache[uint64, vfVal], mon *vfMon, nk int, maxCost int64, rai
 	if !raised {
 		vfAssert(rem >= 0, "C03.remaining-nonneg")
 	}
-	vfMetricsLaws(c, mon, residents, rem, gets, metrics)
+	vfMetricsLaws(c, mon, stored, rem, gets, metrics)
 	if vfParam("iter", 0) == 0 {
 		return
 	}
@@ -327,5 +361,68 @@ func vfH_C01_Race2() {
 	c.Wait()
 	mon.get(c, 0)
 	mon.get(c, 1)
+	vfReach("end")
+}
+
+// vfH_C02_UpdateVsEvict: an overwrite of a resident key is still buffered when the admission of
+// another key evicts that key: the overwritten and the evicted values must never be served again.
+func vfH_C02_UpdateVsEvict() {
+	c, mon := vfNewCache(vfCfg{MaxCost: 1, SetBuf: 4, IgnoreInternalCost: true})
+	mon.vfKeys(2, true)
+	vfHavocReach(c.cachePolicy.admit.freq, "freq")
+	vfSet("preempt", 0)
+	vfSet("dpor", 0)
+	mon.set(c, 0, 1, 0)
+	c.Wait()
+	vfSet("dpor", 1)
+	vfSet("preempt", vfParam("preempt", 100))
+	vfBegin()
+	if vfChoice(2) == 0 {
+		mon.set(c, 0, 1, 0) // overwrite: visible at once, update record buffered
+		mon.set(c, 1, 1, 0) // new key: may evict key 0
+	} else {
+		mon.set(c, 1, 1, 0) // new key first: its admission may evict key 0 ...
+		mon.set(c, 0, 1, 0) // ... after key 0 was overwritten, with the update record still buffered
+	}
+	mon.get(c, 0)
+	c.Wait()
+	mon.get(c, 0)
+	mon.get(c, 1)
+	vfReach("end")
+}
+
+// vfH_C02_ClearVsGet: a Get running concurrently with Clear never returns a value that Clear has
+// already handed to OnExit.
+func vfH_C02_ClearVsGet() {
+	c, mon := vfNewCache(vfCfg{MaxCost: 4, SetBuf: 4, IgnoreInternalCost: true})
+	mon.vfKeys(2, true)
+	vfAssume(mon.hash[0]%numShards == mon.hash[1]%numShards)
+	vfSet("preempt", 0)
+	vfSet("dpor", 0)
+	mon.set(c, 0, 1, 0)
+	mon.set(c, 1, 1, 0)
+	c.Wait()
+	vfSet("dpor", 1)
+	vfSet("preempt", vfParam("preempt", 3))
+	vfBegin()
+	done := make(chan struct{}, 1)
+	go func() {
+		if vfParam("writer", 0) == 1 {
+			mon.set(c, 0, 1, 0) // an overwrite racing with Clear
+		} else {
+			mon.get(c, 0)
+			mon.get(c, 1)
+		}
+		done <- struct{}{}
+	}()
+	mon.inClear = true
+	c.Clear()
+	mon.inClear = false
+	<-done
+	mon.get(c, 0)
+	mon.inClear = true
+	c.Close()
+	mon.inClear = false
+	vfReleasedOnce(mon)
 	vfReach("end")
 }
